@@ -118,6 +118,40 @@ def fp32_positivity(chk, T, dense=False):
                        lambda V: (hy, z3.And(*[z3.fpGEQ(c, reg) for c in cells(V.out)])), signature=f"fp32-positivity:{'full' if dense else 'diag'}", replay=replay, timeout_s=900)]
 
 
+def sequence_tune(chk, T):
+    """KernelSequence.tune with two mass-matrix kernels whose identifiers are not in alphabetical order: entry i of the returned kernel states
+    is kernel i's own tuning result (its matrix = (co)variance of ITS parameters' history)"""
+    import liesel.goose as gs
+    from liesel.goose.epoch import EpochConfig, EpochType
+    from liesel.goose.hmc import HMCKernelState
+    from liesel.goose.kernel_sequence import KernelSequence
+    from liesel.goose.nuts import NUTSKernelState
+    k1 = make("nuts", ("a",), True)
+    k2 = make("hmc", ("m",), True)
+    k1.identifier, k2.identifier = "regression", "aux"          # sequence order != alphabetical order
+    seq = KernelSequence([k1, k2])
+    ep = EpochConfig(EpochType.SLOW_ADAPTATION, T, 1, None).to_state(1, 0)
+
+    def g(hist):
+        out = seq.tune(jax.random.PRNGKey(0), [NUTSKernelState(0.1, jnp.ones(2)), HMCKernelState(0.2, jnp.ones(2))], {}, ep, hist)
+        return dict(first=out.kernel_states[0].inverse_mass_matrix, second=out.kernel_states[1].inverse_mass_matrix)
+    hist0 = {"a": jnp.zeros((T, 2)) + 0.1 * jnp.arange(T).reshape(T, 1), "m": (jnp.zeros((T, 2, 1)) + 0.3 * jnp.arange(T).reshape(T, 1, 1)) ** 2}
+    sym = (symlike(hist0, "hseq"),)
+    e = chk.note_enc(Enc("KernelSequence.tune [NUTS('a') as 'regression', HMC('m') as 'aux']", g, (hist0,), sym))
+    reg = np.float32(0.001)
+
+    def goal(V):
+        h = sym[0]
+        def var(col):
+            mean = sum(col) / T
+            return sum((c - mean) * (c - mean) for c in col) / (T - 1) + V.c(reg)
+        fa = [[h["a"][t, i] for t in range(T)] for i in range(2)]
+        fm = [[h["m"][t, i, 0] for t in range(T)] for i in range(2)]
+        return [], z3.And(*[V.out["first"][i] == var(fa[i]) for i in range(2)], *[V.out["second"][i] == var(fm[i]) for i in range(2)])
+    return [Obligation("KernelSequence.tune: the i-th returned kernel state is the i-th kernel's own tuning result (identifiers 'regression', 'aux': sequence order differs from alphabetical order)",
+                       [e], goal, signature="sequence-tune", tactic="default")]
+
+
 def main():
     chk = Check("C12")
     T = 3 if chk.tier == "quick" else 4
@@ -158,6 +192,7 @@ def main():
                               (lambda V, symf=symf: ([], z3.And(cells(V.out["ss"])[0] == cells(symf[0])[0], all_eq(V.out["imm"], symf[1])))), signature=f"{kind}:fast-tune"))
     for e in chk.encs:
         chk.validated_points += e.validate(chk.rng, npoints=1)
+    obs += sequence_tune(chk, T)
     obs += fp32_positivity(chk, 3)
     if chk.tier == "thorough":
         obs += fp32_positivity(chk, 4) + fp32_positivity(chk, 3, dense=True)
